@@ -38,6 +38,7 @@ JITTER = (0.0, 0.0, 0.0005, 0.002)
 FAULT_KINDS = ("raise", "truncate")
 FAULT_TARGETS = ("occupied", "occupied", "probe", "frame")   # which frame is hit, see play()
 ERRNOS = (errno.ENOBUFS, errno.ENETDOWN)
+BIG_SHARE = 0.12            # share of cases with 16..40 terminals
 
 
 class Hang(BaseException):
@@ -48,6 +49,11 @@ def make_case(rng, ident):
     """parameters of one case (everything a replay needs)"""
     while True:
         n = rng.randint(2, 6)
+        # big buses: more datagrams queued at once than one frame takes (15), so that the
+        # requests of concurrently scanned / initialised terminals spill into further frames
+        big = rng.random() < BIG_SHARE
+        if big:
+            n = rng.choice((16, 17, 20, 33, rng.randint(16, 40)))
         fault = None
         if rng.random() < 0.5:
             # a packet fails as a whole once or twice: at a probe of an address a terminal holds,
@@ -58,6 +64,8 @@ def make_case(rng, ident):
             if fault["target"] == "occupied":
                 fault["skip"] = 0
         width = rng.randint(4, 8) if fault is None else rng.randint(6, 12)
+        if big:
+            width = rng.randint(n // 2, n)         # provisional; widened to the demand below
         lo = rng.choice((1000, 1000, 7, 4090, 29990))
         hi = lo + width - 1
         outside = [lo - 1, hi + 1, hi + 2, 5, 300, 40000]
@@ -77,21 +85,28 @@ def make_case(rng, ident):
             if earlier and rng.random() < 0.25:
                 conf[i] = rng.choice(earlier)
         scenario = rng.choice(SCENARIOS)
-        inits = sorted(rng.sample(range(n), rng.randint(1, n))) if "init" in scenario else []
+        ninit = rng.randint(max(1, n - 4), n) if big else rng.randint(1, n)
+        inits = sorted(rng.sample(range(n), ninit)) if "init" in scenario else []
         rng.shuffle(inits)
-        demand = len(inits) + sum(1 for a in conf if lo <= a <= hi)
-        if "scan" in scenario:
-            demand += sum(1 for a in conf if a == 0)
+
+        def need(hi):
+            d = len(inits) + sum(1 for a in conf if lo <= a <= hi)
+            if "scan" in scenario:
+                d += sum(1 for a in conf if a == 0)
+            return d * (fault["count"] + 1 if fault else 1)   # a failure may burn them once more
+        if big:                                    # just enough room: collisions stay frequent
+            slack = rng.randint(0, 3)
+            for _ in range(3):
+                hi = max(hi, lo + need(hi) + slack)
+        demand = need(hi)
         if fault and fault["target"] == "occupied" and not any(lo <= a <= hi for a in conf):
             continue                               # needs a terminal answering inside the range
-        if fault is not None:                      # every failure may burn the addresses once more
-            demand *= fault["count"] + 1
         if demand <= hi - lo:                      # never exhaust the range (endless search)
             break
     return dict(id=ident, n=n, lo=lo, hi=hi, conf=conf, scenario=scenario, inits=inits,
                 scan_first=rng.random() < 0.5, fault=fault,
                 delays=[rng.choice(DELAYS) for _ in range(40)],
-                jitter=[rng.choice(JITTER) for _ in range(n + 1)],
+                jitter=[rng.choice(JITTER) if not big or i % 7 == 6 else 0.0 for i in range(n + 1)],
                 seed=rng.randrange(1 << 30))
 
 
@@ -333,7 +348,8 @@ CHECK_DEADLOCK FALSE
     if not ctx.extra["stats"]["writes"]:
         raise T.MachineryError("no address was ever assigned: the harness does not exercise the code")
     ctx.exhaustive = False
-    ctx.rule = (f"{ngrid} fixed + {nrand} seeded cases: 2..6 terminals, random pre-assigned addresses (some shared by several terminals) in "
+    ctx.rule = (f"{ngrid} fixed + {nrand} seeded cases: 2..6 terminals ({int(BIG_SHARE * 100)}% of them 16..40, so that concurrent requests "
+                f"overflow a frame), random pre-assigned addresses (some shared by several terminals) in "
                 f"and around a range of 4..8 addresses, scan_serial_numbers and/or concurrent "
                 f"Terminal.initialize in varied start order, start jitter and response delays; in half of "
                 f"the cases one or two packets fail as a whole (sendto raising ENOBUFS/ENETDOWN, or a "
